@@ -29,8 +29,9 @@ inductive Frag : Node → Prop
   | number (n : Node) (t : Tok) (ht : n.tok = some t) (h : n.name = "number") : Frag n
   | rawString (n : Node) (t : Tok) (ht : n.tok = some t) (h : n.name = "string") (hr : t.allowEscapes = false) : Frag n
   | unary (n : Node) (t : Tok) (c : Node) (ht : n.tok = some t)
-      (h : n.name = "plus" ∨ n.name = "minus" ∨ n.name = "not" ∨ n.name = "guard")
+      (h : n.name = "plus" ∨ n.name = "minus" ∨ n.name = "not")
       (hc : n.children = [some c]) (fc : Frag c) : Frag n
+  | guardN (n c : Node) (h : n.name = "guard") (hc : n.children = [some c]) (fc : Frag c) : Frag n
   | binary (n : Node) (t : Tok) (a b : Node) (ht : n.tok = some t)
       (h : n.name = "plus" ∨ n.name = "minus" ∨ n.name = "times" ∨ n.name = "div" ∨ n.name = "divint" ∨
            n.name = "modint" ∨ n.name = "and" ∨ n.name = "or" ∨ n.name = "==" ∨ n.name = "!=" ∨
@@ -40,10 +41,11 @@ inductive Frag : Node → Prop
   | signal (n : Node) (t : Tok) (ht : n.tok = some t) (h : n.name = "break" ∨ n.name = "continue") : Frag n
   | ret0 (n : Node) (t : Tok) (ht : n.tok = some t) (h : n.name = "return") (hc : n.children = []) : Frag n
   | ret1 (n : Node) (t : Tok) (c : Node) (ht : n.tok = some t) (h : n.name = "return") (hc : n.children = [some c]) (fc : Frag c) : Frag n
-  | statements (n : Node) (t : Tok) (kids : List Node) (ht : n.tok = some t) (h : n.name = "statements")
+  | statements (n : Node) (kids : List Node) (h : n.name = "statements")
       (hc : n.children = kids.map some) (hk : ∀ c, c ∈ kids → Frag c) : Frag n
   | list (n : Node) (t : Tok) (kids : List Node) (ht : n.tok = some t) (h : n.name = "list")
-      (hc : n.children = kids.map some) (hk : ∀ c, c ∈ kids → Frag c) : Frag n
+      (hc : n.children = kids.map some) (hk : ∀ c, c ∈ kids → Frag c)
+      (hks : ∀ c, c ∈ kids → c.name ≠ "statements") (hkg : ∀ c, c ∈ kids → c.name ≠ "guard") : Frag n
   | map (n : Node) (t : Tok) (kids : List Node) (ht : n.tok = some t) (h : n.name = "map")
       (hc : n.children = kids.map some) (hk : ∀ c, c ∈ kids → FragEntry c) : Frag n
   | ident (n : Node) (t : Tok) (kids : List Node) (ht : n.tok = some t) (h : n.name = "identifier")
@@ -59,7 +61,7 @@ inductive Frag : Node → Prop
       (hc : n.children = [some c0, some body]) (f0 : Frag c0) (fb : Frag body) : Frag n
   | istring (n : Node) (t : Tok) (ht : n.tok = some t) (h : n.name = "string") : Frag n
   | asN (n : Node) (t : Tok) (v : Node) (ht : n.tok = some t) (h : n.name = "as") (hc : n.children = [some v])
-      (fv : Frag v) : Frag n
+      (fv : Frag v) (hvs : v.name ≠ "statements") (hvg : v.name ≠ "guard") : Frag n
   | tryN (n : Node) (t : Tok) (body : Node) (clauses : List Node) (ht : n.tok = some t) (h : n.name = "try")
       (hc : n.children = some body :: clauses.map some) (fb : Frag body) (hbn : body.name ≠ "finally")
       (hcl : ∀ c, c ∈ clauses → Clause c) : Frag n
@@ -79,6 +81,8 @@ inductive Link : Node → Prop
   | comp (c e : Node) (hn : c.name = "compaccess") (hc : c.children = [some e]) (fe : Frag e) : Link c
   | field (c : Node) (t : Tok) (kids : List Node) (hn : c.name = "identifier") (ht : c.tok = some t)
       (hc : c.children = kids.map some) (hl : ∀ k, k ∈ kids → Link k) : Link c
+  | call (c : Node) (args : List Node) (hn : c.name = "funccall") (hc : c.children = args.map some)
+      (ha : ∀ a, a ∈ args → Frag a) : Link c
   | other (c : Node) (hn : c.name ≠ "compaccess" ∧ c.name ≠ "identifier" ∧ c.name ≠ "funccall") : Link c
 /-- a parameter of a function declaration: a name, a name with a default expression, anything else (ignored) -/
 inductive Param : Node → Prop
@@ -90,7 +94,8 @@ inductive Param : Node → Prop
     block, anything else (ignored by the evaluator) -/
 inductive Clause : Node → Prop
   | exc (c : Node) (t : Tok) (kids : List Node) (hn : c.name = "except") (ht : c.tok = some t)
-      (hc : c.children = kids.map some) (hne : kids ≠ []) (hk : ∀ k, k ∈ kids → Frag k) : Clause c
+      (hc : c.children = kids.map some) (hne : kids ≠ []) (hk : ∀ k, k ∈ kids → Frag k)
+      (hfirst : ∀ k0 k1 rest, kids = k0 :: k1 :: rest → k0.name ≠ "statements" ∧ k0.name ≠ "guard") : Clause c
   | blk (c : Node) (t : Tok) (b : Node) (hn : c.name = "otherwise" ∨ c.name = "finally") (ht : c.tok = some t)
       (hc : c.children = [some b]) (fb : Frag b) : Clause c
   | other (c : Node) (hn : c.name ≠ "except" ∧ c.name ≠ "otherwise" ∧ c.name ≠ "finally") : Clause c
@@ -235,7 +240,7 @@ macro_rules | `(tactic| np_lem) => `(tactic| fail "no lemma")
 macro "np1" : tactic => `(tactic| first
   | with_reducible np_lem
   | with_reducible exact NPQ.pure _ (fun _ => True) trivial
-  | (with_reducible refine NPQ.throw _ _ ?_) <;> (first | exact rtErr_ne_panic _ _ | assumption | simp [plain, raiseSig] | (simp only [] at *; assumption))
+  | (with_reducible refine NPQ.throw _ _ ?_) <;> (first | exact rtErr_ne_panic _ _ | assumption | simp [plain, raiseSig] | (simp only [] at *; assumption) | (exfalso; simp_all))
   | with_reducible exact NPQ.get'
   | (with_reducible refine NPQ.set _ ?_) <;> assumption
   | (with_reducible refine NPQ.modify _ ?_) <;> exact fun _ h => h
@@ -243,6 +248,8 @@ macro "np1" : tactic => `(tactic| first
   | with_reducible refine NPQ.forIn _ _ (fun _ _ _ => ?_) _
   | with_reducible refine NPQ.foldlM _ _ (fun _ _ _ => ?_) _
   | with_reducible refine NPQ.mapM _ _ (fun _ _ => ?_)
+  | (with_reducible refine NPQ.bind (throw _) _ (fun _ => False) _ (NPQ.throw _ _ ?_) (fun _ h => h.elim)) <;>
+      (first | exact rtErr_ne_panic _ _ | assumption | simp [plain, raiseSig] | (simp only [] at *; assumption))
   | with_reducible refine NPQ.bind (get : M St) _ Inv _ NPQ.get (fun _ _ => ?_)
   | with_reducible refine NPQ.bind (attemptE _) _ _ _ (NPQ.attemptE _ (fun _ => True) ?_) (fun _ _ => ?_)
   | with_reducible refine NPQ.bind _ _ (fun _ => True) _ ?_ (fun _ _ => ?_)
@@ -387,29 +394,34 @@ macro_rules | `(tactic| np_lem) => `(tactic| exact goInt_np _)
 theorem numberOf_np (t : Tok) : NP (numberOf t) := by unfold numberOf; np
 macro_rules | `(tactic| np_lem) => `(tactic| exact numberOf_np _)
 
-theorem Frag.tok {n : Node} (h : Frag n) : ∃ t, n.tok = some t := by
-  cases h <;> exact ⟨_, by assumption⟩
+/-- every node of the fragment carries a token, except the two kinds the parser builds without one
+    (`statements`, `guard`; `params funccall compaccess` are not `Frag` nodes but links / parameter lists) -/
+theorem Frag.tok {n : Node} (h : Frag n) (hs : n.name ≠ "statements") (hg : n.name ≠ "guard") : ∃ t, n.tok = some t := by
+  cases h <;> first | exact ⟨_, by assumption⟩ | simp_all
 theorem Frag.ident_inv {n : Node} (h : Frag n) (hn : n.name = "identifier") :
     ∃ (t : Tok) (kids : List Node), n.tok = some t ∧ n.children = kids.map some ∧ ∀ c, c ∈ kids → Link c := by
   cases h <;> first | exact ⟨_, _, by assumption, by assumption, by assumption⟩ | simp_all
 
 /-- a node on which a call can be resolved: an access path one of whose links is a call -/
 def Good (cn : Node) : Prop :=
-  ∃ kids : List Node, cn.children = kids.map some ∧ (∀ c, c ∈ kids → Link c) ∧ ∃ fc, fc ∈ kids ∧ fc.name = "funccall"
+  ∃ (t : Tok) (kids : List Node), cn.tok = some t ∧ cn.children = kids.map some ∧ (∀ c, c ∈ kids → Link c) ∧
+    ∃ fc, fc ∈ kids ∧ fc.name = "funccall"
 def AccQ (r : Option Node × List Nat) : Prop := ∀ cn, r.1 = some cn → Good cn
 /-- loop invariant of `accessString` (the early-return slot of the loop state) -/
 def AccP (st : Option (Option Node × List Nat) × List Nat × Nat) : Prop := ∀ r, st.1 = some r → AccQ r
 
 theorem Frag.list_inv {n : Node} (h : Frag n) (hn : n.name = "list") :
-    ∃ kids : List Node, n.children = kids.map some ∧ ∀ c, c ∈ kids → Frag c := by
-  cases h <;> simp_all
-  all_goals exact ⟨_, rfl, by assumption⟩
+    ∃ kids : List Node, n.children = kids.map some ∧ (∀ c, c ∈ kids → Frag c) ∧
+      (∀ c, c ∈ kids → c.name ≠ "statements") ∧ (∀ c, c ∈ kids → c.name ≠ "guard") := by
+  cases h <;> first | exact ⟨_, by assumption, by assumption, by assumption, by assumption⟩ | simp_all
 theorem Frag.let_inv {n : Node} (h : Frag n) (hn : n.name = "let") : ∃ lv, n.children = [some lv] ∧ Frag lv := by
   cases h <;> simp_all
-theorem tokOf_np (n : Node) (h : Frag n) : NP (tokOf n) := by
-  obtain ⟨t, ht⟩ := Frag.tok h
+theorem tokOf_np (n : Node) (h : Frag n) (hs : n.name ≠ "statements") (hg : n.name ≠ "guard") : NP (tokOf n) := by
+  obtain ⟨t, ht⟩ := Frag.tok h hs hg
   simp [tokOf, ht]; np
-macro_rules | `(tactic| np_lem) => `(tactic| exact tokOf_np _ (by solve_by_elim (maxDepth := 4)))
+macro_rules | `(tactic| np_lem) => `(tactic| exact tokOf_np _ (by solve_by_elim (maxDepth := 4))
+  (by first | solve_by_elim (maxDepth := 3) | (simp only [‹_ = "identifier"›]; decide))
+  (by first | solve_by_elim (maxDepth := 3) | (simp only [‹_ = "identifier"›]; decide)))
 
 /-! ### control-flow combinators -/
 theorem ifChain_np : ∀ (l : List (M Val × M Val)), (∀ p, p ∈ l → NP p.1 ∧ NP p.2) → NP (ifChain l) := by
@@ -544,13 +556,135 @@ theorem Frag.in_inv {n : Node} (h : Frag n) (hn : n.name = "in") :
     ∃ a b : Node, n.children = [some a, some b] ∧ Frag a ∧ Frag b := by
   cases h <;> first | exact ⟨_, _, by assumption, by assumption, by assumption⟩ | simp_all
 
-theorem Frag.as_inv {n : Node} (h : Frag n) (hn : n.name = "as") : ∃ v : Node, n.children = [some v] ∧ Frag v := by
-  cases h <;> first | exact ⟨_, by assumption, by assumption⟩ | simp_all
+theorem Frag.as_inv {n : Node} (h : Frag n) (hn : n.name = "as") :
+    ∃ v : Node, n.children = [some v] ∧ Frag v ∧ v.name ≠ "statements" ∧ v.name ≠ "guard" := by
+  cases h <;> first | exact ⟨_, by assumption, by assumption, by assumption, by assumption⟩ | simp_all
 
 theorem getLast?_cons_append_singleton {α : Type} (a : α) (l : List α) (x : α) : (a :: (l ++ [x])).getLast? = some x := by
   induction l generalizing a with
   | nil => rfl
   | cons b l ih => rw [List.cons_append, List.getLast?_cons_cons]; exact ih b
+
+/-! ### builtins on the heap (the Eval-side builtins the correspondence compares) -/
+theorem prettyArg_np (v : Val) : NP (prettyArg v) := by unfold prettyArg; np
+macro_rules | `(tactic| np_lem) => `(tactic| exact prettyArg_np _)
+theorem goSyntax_np : ∀ (g : Nat) (v : Val), NP (goSyntax g v) := by
+  intro g; induction g with
+  | zero => intro v; unfold goSyntax; np
+  | succ g ih => intro v; unfold goSyntax; np
+macro_rules | `(tactic| np_lem) => `(tactic| exact goSyntax_np _ _)
+theorem numParamB_np (i : Nat) (v : Val) : NP (numParamB i v) := by unfold numParamB; np
+macro_rules | `(tactic| np_lem) => `(tactic| exact numParamB_np _ _)
+theorem lenB_np (args : List Val) : NP (lenB args) := by unfold lenB; np
+theorem delAt_np (r l i : Nat) : NP (delAt r l i) := by unfold delAt; np
+macro_rules | `(tactic| np_lem) => `(tactic| exact delAt_np _ _ _)
+theorem delB_np (args : List Val) : NP (delB args) := by unfold delB; np
+theorem insertAt_np (r l : Nat) (v : Val) (i : Nat) : NP (insertAt r l v i) := by unfold insertAt; np
+macro_rules | `(tactic| np_lem) => `(tactic| exact insertAt_np _ _ _ _)
+theorem addB_np (args : List Val) : NP (addB args) := by unfold addB; np
+theorem concatGo_np : ∀ (l : List Val) (cur : Val), NP (concatGo l cur) := by
+  intro l; induction l with
+  | nil => intro cur; unfold concatGo; np
+  | cons a rest ih => intro cur; unfold concatGo; np
+macro_rules | `(tactic| np_lem) => `(tactic| exact concatGo_np _ _)
+theorem concatB_np (args : List Val) : NP (concatB args) := by unfold concatB; np
+
+theorem bindToObject_np (obj : Nat) (sup : Option Val) (id : Nat) : NP (bindToObject obj sup id) := by
+  unfold bindToObject
+  refine NPQ.bind (get : M St) _ Inv _ NPQ.get (fun s hs => ?_)
+  split
+  · rename_i fr hfr
+    have hmem : fr ∈ s.funcs.toList := Array.mem_toList_iff.mpr (Array.mem_of_getElem? hfr)
+    have hfd := hs.1 fr hmem
+    refine NPQ.bind _ _ (fun x => x = fr) _ (NPQ.pure _ _ rfl) (fun fr' hfr' => ?_)
+    subst hfr'
+    refine NPQ.bind (get : M St) _ Inv _ NPQ.get (fun s2 hs2 => ?_)
+    refine NPQ.bind _ _ (fun _ => True) _ (NPQ.set _ ?_) (fun _ _ => by np)
+    refine ⟨?_, hs2.2⟩
+    intro fr2 hfr2
+    simp only [Array.toList_push, List.mem_append, List.mem_singleton] at hfr2
+    rcases hfr2 with h | h
+    · exact hs2.1 fr2 h
+    · subst h; exact hfd
+  · exact NPQ.bind _ _ (fun _ => False) _ (NPQ.throw _ _ (by simp)) (fun _ h => h.elim)
+macro_rules | `(tactic| np_lem) => `(tactic| exact bindToObject_np _ _ _)
+theorem copyProp_np (obj : Nat) (is : List Val) (k v : Val) : NP (copyProp obj is k v) := by unfold copyProp; np
+macro_rules | `(tactic| np_lem) => `(tactic| exact copyProp_np _ _ _ _)
+theorem copyProps_np (obj : Nat) (is : List Val) : ∀ (l : List (Val × Val)) (i : Val), NP (copyProps obj is l i) := by
+  intro l; induction l with
+  | nil => intro i; unfold copyProps; np
+  | cons p rest ih => intro i; obtain ⟨k, v⟩ := p; unfold copyProps; np
+macro_rules | `(tactic| np_lem) => `(tactic| exact copyProps_np _ _ _ _)
+
+/-- the Go error variable carried through `new`: never a panic -/
+def ErrOK (o : Option Sig) : Prop := ∀ e, o = some e → e ≠ Sig.panic
+
+theorem superLoop_np (rec : Nat → M (Val × Option Sig)) (hrec : ∀ sr, NPQ (rec sr) (fun r => ErrOK r.2)) :
+    ∀ (l : List Val) (err : Option Sig) (acc : List Val), ErrOK err → NPQ (superLoop rec l err acc) (fun r => ErrOK r.1) := by
+  intro l; induction l with
+  | nil => intro err acc he; unfold superLoop; exact NPQ.pure _ _ he
+  | cons x rest ih =>
+    intro err acc he
+    cases x with
+    | map sr =>
+      unfold superLoop
+      refine NPQ.bind _ _ _ _ (hrec sr) (fun r hr => ?_)
+      exact ih _ _ hr
+    | null => unfold superLoop; exact ih _ _ he
+    | bool b => unfold superLoop; exact ih _ _ he
+    | num f => unfold superLoop; exact ih _ _ he
+    | str s => unfold superLoop; exact ih _ _ he
+    | list r l => unfold superLoop; exact ih _ _ he
+    | func id => unfold superLoop; exact ih _ _ he
+    | builtin n => unfold superLoop; exact ih _ _ he
+    | «opaque» w => unfold superLoop; exact ih _ _ he
+
+theorem addSuperClasses_np : ∀ (g obj : Nat) (path : List Nat) (tr : Nat),
+    NPQ (addSuperClasses g obj path tr) (fun r => ErrOK r.2) := by
+  intro g; induction g with
+  | zero => intro obj path tr; unfold addSuperClasses; exact NPQ.throw _ _ (by simp)
+  | succ g ih =>
+    intro obj path tr
+    unfold addSuperClasses
+    split
+    · exact NPQ.pure _ _ (by intro e h; cases h; simp [plain])
+    · refine NPQ.bind _ _ (fun _ => True) _ (getMap_np _) (fun tkvs _ => ?_)
+      refine NPQ.bind _ _ (fun r => ErrOK r.1) _ ?_ (fun r hr => ?_)
+      · split
+        · refine NPQ.bind _ _ (fun _ => True) _ (getList_np _ _) (fun xs _ => ?_)
+          exact superLoop_np _ (ih obj (tr :: path)) _ _ _ (by intro e h; cases h)
+        · exact NPQ.pure _ _ (by intro e h; cases h; simp [plain])
+        · exact NPQ.pure _ _ (by intro e h; cases h)
+      · obtain ⟨err, initSuper⟩ := r
+        refine NPQ.bind _ _ (fun _ => True) _ (copyProps_np _ _ _ _) (fun _ _ => ?_)
+        exact NPQ.pure _ _ hr
+
+theorem newB_np (runInit : Nat → List Val → M Val) (hinit : ∀ id rest, NP (runInit id rest)) (args : List Val) :
+    NP (newB runInit args) := by
+  unfold newB
+  split
+  · refine NPQ.bind _ _ (fun _ => True) _ (newMap_np _) (fun obj _ => ?_)
+    dsimp only []
+    refine NPQ.bind _ _ (fun r => ErrOK r.2) _ (addSuperClasses_np _ _ _ _) (fun r hr => ?_)
+    obtain ⟨x, err⟩ := r
+    refine NPQ.bind _ _ (fun _ => True) _ (getMap_np _) (fun kvs _ => ?_)
+    refine NPQ.bind _ _ ErrOK _ ?_ (fun err2 herr2 => ?_)
+    · split
+      · refine NPQ.bind _ _ _ _ (NPQ.attemptE _ _ (hinit _ _)) (fun r2 hr2 => ?_)
+        cases r2 with
+        | ok v => exact NPQ.pure _ _ (by intro e h; cases h)
+        | error e =>
+          have he : e ≠ Sig.panic := hr2
+          dsimp only []
+          split
+          · exact NPQ.throw _ _ he
+          · exact NPQ.pure _ _ (by intro e' h; cases h; exact he)
+      · exact NPQ.pure _ _ hr
+    · split
+      · rename_i e; exact NPQ.throw _ _ (herr2 e rfl)
+      · np
+  · np
+  · np
 
 theorem Frag.func_inv {n : Node} (h : Frag n) (hn : n.name = "function") :
     ∃ (params body : Node) (ps : List Node), params.children = ps.map some ∧ (∀ p, p ∈ ps → Param p) ∧ Frag body ∧
@@ -587,9 +721,47 @@ theorem buildFrame_np (evalDefault : Node → M Val) (hd : ∀ d, Frag d → NP 
   unfold buildFrame bindContext
   np
 
-theorem Good.false {cn : Node} (h : Good cn) : False := by
-  obtain ⟨kids, _, hl, fc, hfc, hn⟩ := h
-  cases hl fc hfc <;> simp_all
+/-- the call link of a resolvable node, for any predicate `p` that recognises `funccall` children: what
+    `find? p` returns is a call link whose arguments are in the fragment … -/
+theorem Good.find_some {cn : Node} (h : Good cn) (p : Option Node → Bool) (hp : ∀ c, p (some c) = (c.name == "funccall"))
+    (fc : Node) (hf : cn.children.find? p = some (some fc)) :
+    ∃ args : List Node, fc.children = args.map some ∧ ∀ a, a ∈ args → Frag a := by
+  obtain ⟨t, kids, _, hc, hl, _⟩ := h
+  have hmem := List.mem_of_find?_eq_some hf
+  have hpx := List.find?_some hf
+  rw [hc] at hmem
+  obtain ⟨fc', hfcm, hfe⟩ := List.mem_map.mp hmem
+  cases hfe
+  have hn : fc.name = "funccall" := by rw [hp] at hpx; simpa using hpx
+  cases hl fc hfcm with
+  | comp c e hn' hc' fe => simp_all
+  | field c t kids hn' ht hc' hl' => simp_all
+  | call c args hn' hc' ha => exact ⟨args, hc', ha⟩
+  | other c hn' => exact absurd hn hn'.2.2
+
+/-- … and it always returns one -/
+theorem Good.find_none {cn : Node} (h : Good cn) (p : Option Node → Bool) (hp : ∀ c, p (some c) = (c.name == "funccall"))
+    (hne : ∀ fc, cn.children.find? p = some (some fc) → False) : False := by
+  obtain ⟨t, kids, _, hc, hl, fc0, hfc0, hn0⟩ := h
+  cases hf : cn.children.find? p with
+  | none =>
+    have := List.find?_eq_none.mp hf (some fc0) (by rw [hc]; exact List.mem_map.mpr ⟨fc0, hfc0, rfl⟩)
+    rw [hp] at this
+    simp [hn0] at this
+  | some x =>
+    cases x with
+    | some fc => exact hne fc hf
+    | none =>
+      have hmem := List.mem_of_find?_eq_some hf
+      rw [hc] at hmem
+      obtain ⟨_, _, hfe⟩ := List.mem_map.mp hmem
+      cases hfe
+
+theorem wrapCallErr_ne_panic (node : Node) (e : Sig) (he : e ≠ Sig.panic) : wrapCallErr node e ≠ Sig.panic := by
+  unfold wrapCallErr
+  split
+  · split <;> exact rtErr_ne_panic _ _
+  · exact he
 
 abbrev IH (g : Nat) : Prop := ∀ g', g' < g → ∀ sc n, Frag n → NP (eval g' sc n)
 
@@ -661,12 +833,12 @@ theorem accP_done (cn : Node) (p res : List Nat) (i : Nat) (h : Good cn) :
   simp only [Option.some.injEq] at hc
   subst hc
   exact h
-theorem accessString_any (sc : Nat) : ∀ k, k ≤ g + 1 → ∀ (n : Node) (kids : List Node) (pre : List Nat),
-    n.children = kids.map some → (∀ c, c ∈ kids → Link c) → NPQ (accessString k sc n pre) AccQ := by
+theorem accessString_any (sc : Nat) : ∀ k, k ≤ g + 1 → ∀ (n : Node) (tn : Tok) (kids : List Node) (pre : List Nat),
+    n.tok = some tn → n.children = kids.map some → (∀ c, c ∈ kids → Link c) → NPQ (accessString k sc n pre) AccQ := by
   intro k; induction k with
-  | zero => intro _ n kids pre _ _; unfold accessString; exact NPQ.throw _ _ (by simp)
+  | zero => intro _ n tn kids pre _ _ _; unfold accessString; exact NPQ.throw _ _ (by simp)
   | succ k ihk =>
-    intro hk n kids pre hc hl
+    intro hk n tn kids pre htn hc hl
     have ihk' := ihk (by omega)
     have ihe := ihs k (by omega)
     unfold accessString
@@ -685,7 +857,7 @@ theorem accessString_any (sc : Nat) : ∀ k, k ≤ g + 1 → ∀ (n : Node) (kid
         have hm : nx ∈ kids := by
           have : kids[b.snd.snd + 1]? = some nx := by simpa using heq
           exact List.mem_of_getElem? this
-        exact NPQ.pure _ _ (accP_done _ _ _ _ ⟨kids, hc, hl, nx, hm, hfc⟩)
+        exact NPQ.pure _ _ (accP_done _ _ _ _ ⟨tn, kids, htn, hc, hl, nx, hm, hfc⟩)
       | field c t ckids hn ht hcc hlc =>
         simp [hn, hcc, tokOf, ht]
         cases ckids with
@@ -694,8 +866,8 @@ theorem accessString_any (sc : Nat) : ∀ k, k ≤ g + 1 → ∀ (n : Node) (kid
           simp
           split
           · rename_i hfc
-            exact NPQ.pure _ _ (accP_done _ _ _ _ ⟨g0 :: rest, hcc, hlc, g0, by simp, hfc⟩)
-          · refine NPQ.bind _ _ AccQ _ (ihk' c (g0 :: rest) _ hcc hlc) (fun x hx => ?_)
+            exact NPQ.pure _ _ (accP_done _ _ _ _ ⟨t, g0 :: rest, ht, hcc, hlc, g0, by simp, hfc⟩)
+          · refine NPQ.bind _ _ AccQ _ (ihk' c t (g0 :: rest) _ ht hcc hlc) (fun x hx => ?_)
             split
             · refine NPQ.pure _ _ ?_
               intro r hr
@@ -703,6 +875,9 @@ theorem accessString_any (sc : Nat) : ∀ k, k ≤ g + 1 → ∀ (n : Node) (kid
               subst hr
               exact hx
             · exact NPQ.pure _ _ (hyield _ _)
+      | call c args hn hcc ha =>
+        simp [hn]
+        exact NPQ.pure _ _ (hyield _ _)
       | other c hn =>
         simp [hn.1, hn.2.1]
         exact NPQ.pure _ _ (hyield _ _)
@@ -720,7 +895,7 @@ theorem identSet_any (sc : Nat) (n : Node) (fn : Frag n) (hn : n.name = "identif
     unfold identSet; simp [tokOf, ht]
     split
     · np
-    · refine NPQ.bind _ _ AccQ _ (accessString_any g ihs sc k (by omega) n kids _ hc hl) (fun x _ => ?_)
+    · refine NPQ.bind _ _ AccQ _ (accessString_any g ihs sc k (by omega) n t kids _ ht hc hl) (fun x _ => ?_)
       np
 set_option hygiene false in
 /-- the part of `evalAssign` after the left side `lhs'` (a `Frag` node, proof `$fl'`) is known -/
@@ -730,7 +905,7 @@ macro "assign_tail " fl':term : tactic => `(tactic| (
     · rename_i hid; exact NPQ.pure _ _ (by intro b hb; simp at hb; subst hb; exact ⟨$fl', hid⟩)
     · split
       · rename_i hli
-        obtain ⟨lk, hlk, hlf⟩ := Frag.list_inv $fl' hli
+        obtain ⟨lk, hlk, hlf, _, _⟩ := Frag.list_inv $fl' hli
         rw [hlk]
         refine NPQ.mapMQ _ _ _ (fun a ha => ?_)
         obtain ⟨c, hcm, rfl⟩ := List.mem_map.mp ha
@@ -775,7 +950,7 @@ theorem evalIdent_step (sc : Nat) (n : Node) (t : Tok) (kids : List Node) (ht : 
   unfold evalIdent; simp [tokOf, ht]
   split
   · np
-  · refine NPQ.bind _ _ AccQ _ (accessString_any g ihs sc g (by omega) n kids _ hc hl) (fun x hx => ?_)
+  · refine NPQ.bind _ _ AccQ _ (accessString_any g ihs sc g (by omega) n t kids _ ht hc hl) (fun x hx => ?_)
     split
     · np
     · split
@@ -789,7 +964,7 @@ theorem evalIdent_step (sc : Nat) (n : Node) (t : Tok) (kids : List Node) (ht : 
         · rename_i hany
           split
           · rename_i v0 hv0
-            refine hcall _ _ _ _ ⟨kids, hc, hl, ?_⟩
+            refine hcall _ _ _ _ ⟨t, kids, ht, hc, hl, ?_⟩
             obtain ⟨y, hy, hy2⟩ := hany
             rw [hv0] at hy
             simp only [List.mem_singleton] at hy
@@ -808,7 +983,8 @@ theorem evalIdent_any (sc : Nat) (n : Node) (t : Tok) (kids : List Node) (ht : n
   | zero => unfold evalIdent; np
   | succ g' => exact evalIdent_step g' (fun g'' h => ihs g'' (by omega)) sc n t kids ht hc hl (hcall g' (by omega))
 theorem exceptHandler_step (sc : Nat) (c : Node) (t : Tok) (kids : List Node) (ht : c.tok = some t)
-    (hc : c.children = kids.map some) (hne : kids ≠ []) (hk : ∀ k, k ∈ kids → Frag k) (e : Sig) :
+    (hc : c.children = kids.map some) (hne : kids ≠ []) (hk : ∀ k, k ∈ kids → Frag k)
+    (hfirst : ∀ k0 k1 rest, kids = k0 :: k1 :: rest → k0.name ≠ "statements" ∧ k0.name ≠ "guard") (e : Sig) :
     NP (exceptHandler (g+1) sc c e) := by
   have ih := ihs g (Nat.le_refl g)
   have hsn := scopeName_np c t ht
@@ -820,11 +996,13 @@ theorem exceptHandler_step (sc : Nat) (c : Node) (t : Tok) (kids : List Node) (h
   | nil => simp [hc, child]; np
   | cons k1 krest =>
     have f1 : Frag k1 := hk k1 (by simp)
+    have h0s := (hfirst k0 k1 krest rfl).1
+    have h0g := (hfirst k0 k1 krest rfl).2
     simp [hc, child]
     split
     · -- binding form `except e { }` / `except as e { }`
       by_cases has : k0.name = "as"
-      · obtain ⟨v, hv, fv⟩ := Frag.as_inv f0 has
+      · obtain ⟨v, hv, fv, hvs, hvg⟩ := Frag.as_inv f0 has
         simp [has, hv, child]; np
       · simp [has]; np
     · -- typed clause
@@ -856,10 +1034,12 @@ theorem exceptHandler_step (sc : Nat) (c : Node) (t : Tok) (kids : List Node) (h
             split
             · rename_i hcond
               have has : a.name = "as" := hcond.1
-              obtain ⟨v, hv, fv⟩ := Frag.as_inv fa has
+              obtain ⟨v, hv, fv, hvs, hvg⟩ := Frag.as_inv fa has
               simp [hv, child]
-              refine NPQ.bind _ _ (fun _ => True) _ (tokOf_np v fv) (fun _ _ => NPQ.pure _ _ fst)
-            · np
+              refine NPQ.bind _ _ (fun _ => True) _ (tokOf_np v fv hvs hvg) (fun _ _ => NPQ.pure _ _ fst)
+            · split
+              · exact NPQ.pure _ _ fst
+              · np
           · np
         · refine NPQ.bind _ _ (fun _ => True) _ (typedMatch_np _ _ _ (by
             intro m hm
@@ -867,11 +1047,12 @@ theorem exceptHandler_step (sc : Nat) (c : Node) (t : Tok) (kids : List Node) (h
             exact ih sc ch (htake ch hch))) (fun _ _ => ?_)
           np
 theorem exceptHandler_any (sc : Nat) (c : Node) (t : Tok) (kids : List Node) (ht : c.tok = some t)
-    (hc : c.children = kids.map some) (hne : kids ≠ []) (hk : ∀ k, k ∈ kids → Frag k) (e : Sig) :
+    (hc : c.children = kids.map some) (hne : kids ≠ []) (hk : ∀ k, k ∈ kids → Frag k)
+    (hfirst : ∀ k0 k1 rest, kids = k0 :: k1 :: rest → k0.name ≠ "statements" ∧ k0.name ≠ "guard") (e : Sig) :
     NP (exceptHandler g sc c e) := by
   cases g with
   | zero => unfold exceptHandler; np
-  | succ g' => exact exceptHandler_step g' (fun g'' h => ihs g'' (by omega)) sc c t kids ht hc hne hk e
+  | succ g' => exact exceptHandler_step g' (fun g'' h => ihs g'' (by omega)) sc c t kids ht hc hne hk hfirst e
 theorem evalTry_step (sc : Nat) (n : Node) (t : Tok) (body : Node) (clauses : List Node) (ht : n.tok = some t)
     (hc : n.children = some body :: clauses.map some) (fb : Frag body) (hbn : body.name ≠ "finally")
     (hcl : ∀ c, c ∈ clauses → Clause c) : NP (evalTry (g+1) sc n) := by
@@ -888,7 +1069,7 @@ theorem evalTry_step (sc : Nat) (n : Node) (t : Tok) (body : Node) (clauses : Li
       refine NPQ.pure _ _ ?_
       intro hf
       cases hcl lc (by simp) with
-      | exc c t kids hn ht hc hne hk => simp_all
+      | exc c t kids hn ht hc hne hk hfirst => simp_all
       | blk c t b hn ht hc fb => exact ⟨t, b, ht, hc, fb⟩
       | other c hn => exact absurd hf hn.2.2
   · refine NPQ.bind _ _ (fun fin => ∀ fi, fin = some fi → NP fi) _ ?_ (fun fin hfin => ?_)
@@ -916,7 +1097,7 @@ theorem evalTry_step (sc : Nat) (n : Node) (t : Tok) (body : Node) (clauses : Li
         · cases hha
           rename_i hex
           cases hcl c hcm with
-          | exc c t kids hn ht hc hne hk => exact exceptHandler_any g ihs sc c t kids ht hc hne hk e
+          | exc c t kids hn ht hc hne hk hfirst => exact exceptHandler_any g ihs sc c t kids ht hc hne hk hfirst e
           | blk c t b hn ht hc fb => simp_all
           | other c hn => simp_all
         · cases hha
@@ -932,7 +1113,7 @@ theorem evalTry_step (sc : Nat) (n : Node) (t : Tok) (body : Node) (clauses : Li
             have := List.find?_some heq
             simpa using this
           cases hcl o' hm with
-          | exc c t kids hn ht hc hne hk => simp_all
+          | exc c t kids hn ht hc hne hk hfirst => simp_all
           | blk c t b hn ht hc' fb' =>
             refine NPQ.bind _ _ (fun _ => True) _ (scopeName_np o' t ht) (fun _ _ => ?_)
             refine NPQ.bind _ _ (fun _ => True) _ (newChild_np _ _) (fun ovs _ => ?_)
@@ -964,6 +1145,79 @@ theorem runFunction_any (sc id : Nat) (args : List Val) : ∀ k, k ≤ g + 1 →
         refine NPQ.bind _ _ (fun _ => True) _ (buildFrame_np _ (fun d fdd => ihe sc d fdd) fr ps hps args) (fun fvs _ => ?_)
         exact callCore_np _ (withFreshIs_np _ (ihe fvs body fb))
     · exact NPQ.bind _ _ (fun _ => False) _ (NPQ.throw _ _ (by simp)) (fun _ h => h.elim)
+theorem runBuiltin_any (sc : Nat) (node : Node) (t : Tok) (ht : node.tok = some t) (b : String) (args : List Val) :
+    ∀ k, k ≤ g + 2 → NP (runBuiltin k sc node b args) := by
+  intro k hk
+  cases k with
+  | zero => unfold runBuiltin; np
+  | succ k =>
+    have hnew : NP (newB (fun id rest => do
+        let ivs ← newScope "newfunc"
+        withFreshIs (runFunction k ivs id rest)) args) :=
+      newB_np _ (fun id rest => NPQ.bind _ _ (fun _ => True) _ (newScope_np _ _)
+        (fun ivs _ => withFreshIs_np _ (runFunction_any g ihs ivs id rest k (by omega)))) args
+    have hlen := lenB_np args
+    have hdel := delB_np args
+    have hadd := addB_np args
+    have hcat := concatB_np args
+    unfold runBuiltin
+    simp only [tokOf, ht]
+    np
+theorem callFunction_any (sc : Nat) (node : Node) (path : List Nat) (fv : Val) (hgood : Good node) :
+    ∀ k, k ≤ g + 1 → NP (callFunction k sc node path fv) := by
+  intro k hk
+  obtain ⟨t, _, ht, _⟩ := id hgood
+  cases k with
+  | zero => unfold callFunction; np
+  | succ k =>
+    have ihe := ihs k (by omega)
+    unfold callFunction
+    refine NPQ.bind _ _ (fun fc => ∃ args : List Node, fc.children = args.map some ∧ ∀ a, a ∈ args → Frag a) _ ?_ (fun fc hfc => ?_)
+    · split
+      · rename_i fc heq
+        exact NPQ.pure _ _ (hgood.find_some _ (fun c => rfl) fc heq)
+      · rename_i hne
+        exact (hgood.find_none _ (fun c => rfl) (fun fc h => hne fc h)).elim
+    · extract_lets pathS isLog target
+      have htarget : ∀ tv, target = some tv → (∃ id, tv = Val.func id) ∨ (∃ b, tv = Val.builtin b) := by
+        intro tv h
+        simp only [target] at h
+        repeat' split at h
+        all_goals first
+          | (cases h; exact Or.inr ⟨_, rfl⟩)
+          | (cases h; exact Or.inl ⟨_, rfl⟩)
+          | cases h
+      rename_i jp
+      have hjp : ∀ u, NP (jp u) := by
+        intro u
+        simp only [jp]
+        cases htv : target with
+        | none => np
+        | some tv =>
+          dsimp only []
+          obtain ⟨args, hfcc, hargs⟩ := hfc
+          rw [hfcc]
+          refine NPQ.bind _ _ (fun _ => True) _ ?_ (fun argv _ => ?_)
+          · refine NPQ.mapM _ _ (fun a ha => ?_)
+            obtain ⟨c, hc, rfl⟩ := List.mem_map.mp ha
+            dsimp only []
+            exact withFreshIs_np _ (ihe sc c (hargs c hc))
+          · refine NPQ.bind _ _ _ _ (NPQ.attemptE _ (fun _ => True) ?_) (fun r hr => ?_)
+            · split
+              · exact runFunction_any g ihs sc _ _ k (by omega)
+              · exact runBuiltin_any g ihs sc node t ht _ _ k (by omega)
+              · rename_i h1 h2
+                rcases htarget tv htv with ⟨id, hid⟩ | ⟨b, hb⟩
+                · exact (h1 id hid).elim
+                · exact (h2 b hb).elim
+            · cases r with
+              | ok v => np
+              | error e =>
+                have he : e ≠ Sig.panic := hr
+                exact NPQ.throw _ _ (wrapCallErr_ne_panic node e he)
+      split
+      · np
+      · exact hjp ()
 theorem ifBranches_any (sc : Nat) : ∀ (pairs : List (Node × Node)), (∀ p, p ∈ pairs → Frag p.1) → (∀ p, p ∈ pairs → Frag p.2) →
     ∀ k, k ≤ g + 1 → NPQ (ifBranches k sc (pairs.flatMap (fun p => [some p.1, some p.2])))
       (fun l => ∀ q, q ∈ l → NP q.1 ∧ NP q.2) := by
@@ -1008,11 +1262,13 @@ theorem evalLoop_step (sc : Nat) (n c0 body : Node) (t : Tok) (ht : n.tok = some
       · np
       · split
         · rename_i hli
-          obtain ⟨lk, hlk, hlf⟩ := Frag.list_inv fiv hli
+          obtain ⟨lk, hlk, hlf, hls, hlg⟩ := Frag.list_inv fiv hli
           rw [hlk]
           refine NPQ.mapM _ _ (fun a ha => ?_)
           obtain ⟨c, hcm, rfl⟩ := List.mem_map.mp ha
           have fc := hlf c hcm
+          have fcs := hls c hcm
+          have fcg := hlg c hcm
           dsimp only []; np
         · np
     · refine NPQ.bind _ _ (fun _ => True) _ (scopeName_np n t ht) (fun _ _ => ?_)
@@ -1074,11 +1330,11 @@ theorem eval_frag_np : ∀ (f sc : Nat) (n : Node), Frag n → NP (eval f sc n) 
       | number n t ht h => unfold eval; simp [h, tokOf, ht]; np
       | rawString n t ht h hr => unfold eval; simp [h, tokOf, ht, hr]; np
       | unary n t c ht h hc fc =>
-        rcases h with h | h | h | h
+        rcases h with h | h | h
         · unfold eval; simp [h, hc]; exact numVal_any f ihs sc n c hc fc _
         · unfold eval; simp [h, hc]; exact numVal_any f ihs sc n c hc fc _
         · unfold eval; simp [h, hc, child]; np
-        · unfold eval; simp [h, hc, child]; np
+      | guardN n c h hc fc => unfold eval; simp [h, hc, child]; np
       | binary n t a b ht h hc fa fb =>
         rcases h with h | h | h | h | h | h | h | h | h | h | h | h | h | h | h | h | h | h
         · unfold eval; simp [h, hc]; exact numOp_any f ihs sc n a b hc fa fb _
@@ -1103,8 +1359,8 @@ theorem eval_frag_np : ∀ (f sc : Nat) (n : Node), Frag n → NP (eval f sc n) 
       | signal n t ht h => rcases h with h | h <;> (unfold eval; simp [h]; np)
       | ret0 n t ht h hc => unfold eval; simp [h, hc]; np
       | ret1 n t c ht h hc fc => unfold eval; simp [h, hc, child]; np
-      | statements n t kids ht h hc hk => unfold eval; simp [h, hc]; np
-      | list n t kids ht h hc hk => unfold eval; simp [h, hc]; np
+      | statements n kids h hc hk => unfold eval; simp [h, hc]; np
+      | list n t kids ht h hc hk hks hkg => unfold eval; simp [h, hc]; np
       | map n t kids ht h hc hk =>
         unfold eval; simp [h, hc]
         refine NPQ.bind _ _ (fun _ => True) _ ?_ (fun _ _ => by np)
@@ -1116,7 +1372,8 @@ theorem eval_frag_np : ∀ (f sc : Nat) (n : Node), Frag n → NP (eval f sc n) 
         | kvp c k v hcc fk fv => simp [hcc, child]; np
       | ident n t kids ht h hc hl =>
         unfold eval; simp [h]
-        exact evalIdent_any f ihs sc n t kids ht hc hl (fun _ _ _ _ _ _ hg => (Good.false hg).elim)
+        exact evalIdent_any f ihs sc n t kids ht hc hl
+          (fun k hk sc' node path fv hg => callFunction_any f ihs sc' node path fv hg k (by omega))
       | assign n t lhs rhs ht h hc fl fr =>
         unfold eval; simp [h]
         cases f with
@@ -1128,7 +1385,7 @@ theorem eval_frag_np : ∀ (f sc : Nat) (n : Node), Frag n → NP (eval f sc n) 
         · np
         · split
           · rename_i hl
-            obtain ⟨kids, hk, hf⟩ := Frag.list_inv fl hl
+            obtain ⟨kids, hk, hf, hfs, hfg⟩ := Frag.list_inv fl hl
             simp [hk]; np
           · np
       | ifN n t pairs ht h hc hg hb =>
@@ -1147,7 +1404,7 @@ theorem eval_frag_np : ∀ (f sc : Nat) (n : Node), Frag n → NP (eval f sc n) 
         split
         · exact NPQ.map _ _ (interpolate_any f ihs sc n t ht f (by omega) _)
         · np
-      | asN n t v ht h hc fv => unfold eval; simp [h]; np
+      | asN n t v ht h hc fv hvs hvg => unfold eval; simp [h]; np
       | tryN n t body clauses ht h hc fb hbn hcl =>
         unfold eval; simp [h]
         cases f with
@@ -1211,12 +1468,12 @@ def fragExample : Node :=
 theorem fragExample_ok : Frag fragExample := by
   refine Frag.assign _ (exTok []) (exNode "identifier" [97] []) _ rfl rfl rfl
     (Frag.ident _ (exTok [97]) [] rfl rfl rfl (by intro c hc; cases hc)) ?_
-  refine Frag.list _ (exTok []) [_, _] rfl rfl rfl ?_
+  refine Frag.list _ (exTok []) [_, _] rfl rfl rfl ?_ (by intro c hc; simp at hc; rcases hc with rfl | rfl <;> decide) (by intro c hc; simp at hc; rcases hc with rfl | rfl <;> decide)
   intro c hc
   simp only [List.mem_cons, List.not_mem_nil, or_false] at hc
   rcases hc with hc | hc
   · subst hc
-    exact Frag.unary _ (exTok []) _ rfl (Or.inr (Or.inr (Or.inl rfl))) rfl
+    exact Frag.unary _ (exTok []) _ rfl (Or.inr (Or.inr rfl)) rfl
       (Frag.binary _ (exTok [37]) _ _ rfl (Or.inr (Or.inr (Or.inr (Or.inr (Or.inr (Or.inl rfl)))))) rfl
         (Frag.number _ (exTok [53]) rfl rfl) (Frag.const _ (exTok []) rfl (Or.inl rfl)))
   · subst hc
